@@ -600,10 +600,111 @@ Proof.
         replace (canon_tags canon pre vpre ++ [canon ft fv])
           with (canon_tags canon (pre ++ [(id, ft)]) (vpre ++ [fv]))
           by (rewrite canon_tags_app by exact Hlen; reflexivity).
+        rewrite <- Htag.
         rewrite Hdr by (unfold lenZ in *; cbn [length] in *; lia).
         f_equal.
         -- f_equal. rewrite canon_tags_app by exact Hlen. rewrite <- app_assoc. reflexivity.
         -- finish_state.
 Qed.
 End Tags.
+
+Lemma RT_struct fields tagged :
+  Forall RT fields ->
+  Forall (fun p => is_marker (snd p) = false -> RT (snd p)) tagged ->
+  Forall (fun p => if is_marker (snd p) then True else (0 <= fst p < ZM31)%Z) tagged ->
+  NoDup (map fst tagged) ->
+  (flex = true \/ tagged = []) ->
+  RT (TStruct fields tagged).
+Proof.
+  intros HF HT Hids Hnd Hflex v bs Hwf Henc. destruct v as [| | | | | | fs ts | |]; try discriminate.
+  rewrite wfb_struct_eq in Hwf. apply andb_true_iff in Hwf as [Hwf Hwt].
+  rewrite encode_struct_eq in Henc. rewrite canon_struct_eq, alloc_struct_eq, min_size_struct_eq.
+  destruct (enc_fields (encode flex) fields fs) as [br|] eqn:Ef; [|discriminate].
+  destruct (enc_tags (encode flex) tagged ts) as [[cnt bt]|] eqn:Et; [|discriminate].
+  destruct (RT_fields fields HF fs br Hwf Ef) as [Hbr [Hlr Hdr]].
+  destruct (RT_tags tagged Hnd (canon_fields canon fields fs) tagged [] [] ts cnt bt eq_refl eq_refl HT Hids Hwt Et) as [Hbt [Hlt Hdt]].
+  destruct flex eqn:Hfl.
+  - inj_some Henc.
+    pose proof (put_uvarint_length cnt) as Hlc.
+    split; [repeat (apply Forall_app; split); try apply put_uvarint_bytes; assumption|split].
+    + rewrite !app_length. lia.
+    + intros rest extra al He Hs Hb. rewrite decode_struct_eq.
+      rewrite !lenZ_app in *. rewrite <- !app_assoc.
+      replace (lenZ br + (lenZ (put_uvarint cnt) + lenZ bt) + extra)%Z
+        with (lenZ br + (lenZ (put_uvarint cnt) + lenZ bt + extra))%Z by lia.
+      rewrite Hdr by (unfold lenZ in *; lia). cbn [bind negb].
+      assert (Hcnt : (cnt < M64)%N) by (unfold M64, ZM31, lenZ in *; lia).
+      unfold lenZ at 1.
+      rewrite read_uvarint_put by (try exact Hcnt; unfold lenZ in *; lia). cbn [bind].
+      unfold int_of_u64. rewrite s64_small by (unfold M63, ZM31, lenZ in *; lia).
+      cbn [st d_in].
+      replace (Z.of_nat (length (put_uvarint cnt)) + lenZ bt + extra - Z.of_nat (length (put_uvarint cnt)))%Z
+        with (lenZ bt + extra)%Z by lia.
+      specialize (Hdt (0%N :: 0%N :: bt ++ rest) rest extra (al + alloc_fields alloc_of fields fs)%N).
+      cbn [canon_tags app] in Hdt.
+      fold (st (bt ++ rest) (lenZ bt + extra) (al + alloc_fields alloc_of fields fs)).
+      rewrite Hdt.
+      * f_equal. finish_state.
+      * exact He.
+      * unfold lenZ in *; lia.
+      * lia.
+      * cbn [length]. rewrite app_length. lia.
+  - inj_some Henc.
+    destruct Hflex as [Hx|Hnil]; [discriminate|]. subst tagged.
+    destruct ts; [|discriminate].
+    split; [exact Hbr|split; [lia|]].
+    intros rest extra al He Hs Hb. rewrite decode_struct_eq.
+    cbn [alloc_tags canon_tags zeros_of] in *.
+    rewrite Hdr by (assumption || lia). cbn [bind negb]. f_equal. finish_state.
+Qed.
+
+Lemma ok_fields_forall : forall fields, ok_fields flex fields = true ->
+  Forall (fun x => flex && is_marker x = false /\ schema_ok flex x = true) fields.
+Proof.
+  induction fields as [|x r IH]; intros H; [constructor|].
+  cbn [ok_fields] in H. apply andb_true_iff in H as [H Hr]. apply andb_true_iff in H as [H1 H2].
+  constructor; [split; [apply negb_true_iff; exact H1|exact H2]|apply IH; exact Hr].
+Qed.
+
+Lemma ok_tags_forall : forall tagged, ok_tags flex tagged = true ->
+  Forall (fun p => schema_ok flex (snd p) = true /\
+                   (if is_marker (snd p) then True else (0 <= fst p < ZM31)%Z)) tagged.
+Proof.
+  induction tagged as [|[i x] r IH]; intros H; [constructor|].
+  cbn [ok_tags] in H. apply andb_true_iff in H as [H Hr]. apply andb_true_iff in H as [H1 H2].
+  constructor; [|apply IH; exact Hr]. cbn [fst snd]. split; [exact H2|].
+  destruct (is_marker x); [exact I|]. apply andb_true_iff in H1 as [Ha Hb]. lia.
+Qed.
+
+Theorem roundtrip : forall t, schema_ok flex t = true -> flex && is_marker t = false -> RT t.
+Proof.
+  induction t as [| w | | n | n | n e t IH | fields tagged IHf IHt | | r] using ty_ind'; intros Hok Hm.
+  - apply RT_bool.
+  - apply RT_int. exact Hok.
+  - apply RT_float.
+  - apply RT_string.
+  - apply RT_bytes.
+  - cbn [schema_ok] in Hok.
+    repeat (apply andb_true_iff in Hok as [Hok ?]).
+    apply RT_array; try lia.
+    apply IH; [assumption|]. 
+    match goal with H : negb (is_marker t) = true |- _ => apply negb_true_iff in H; rewrite H; apply andb_false_r end.
+  - rewrite schema_ok_struct_eq in Hok.
+    repeat (apply andb_true_iff in Hok as [Hok ?]).
+    apply ok_fields_forall in Hok.
+    match goal with H : ok_tags flex tagged = true |- _ => apply ok_tags_forall in H; rename H into Htags end.
+    apply RT_struct.
+    + clear - Hok IHf. induction IHf as [|x r Hx _ IHr]; [constructor|].
+      apply Forall_cons_iff in Hok as [[Hm Hs] Hok]. constructor; [apply Hx; assumption|apply IHr; exact Hok].
+    + clear - Htags IHt. induction IHt as [|[i x] r Hx _ IHr]; [constructor|].
+      apply Forall_cons_iff in Htags as [[Hs _] Htags]. cbn [snd] in *.
+      constructor; [|apply IHr; exact Htags].
+      cbn [snd]. intros Hnm. apply Hx; [exact Hs|]. rewrite Hnm. apply andb_false_r.
+    + clear - Htags. induction Htags as [|p r [_ Hp] _ IHr]; constructor; assumption.
+    + apply nodupZ_spec. assumption.
+    + match goal with H : flex || _ = true |- _ => apply orb_true_iff in H as [Hf|Hn] end;
+        [left; exact Hf|right; destruct tagged; [reflexivity|discriminate]].
+  - apply RT_marker. cbn [is_marker] in Hm. rewrite andb_true_r in Hm. exact Hm.
+  - apply RT_records.
+Qed.
 End RT.
